@@ -279,6 +279,54 @@ func runGenesis(r *hx.R, n int, w *hx.W, _ []string) error {
 				})
 			}
 		}
+		// ---- module parameters at legal boundary values (a zero fee, a zero share, an empty / a one-element list, zero gas):
+		// what governance may set, export and import have to carry over unchanged
+		if r.Chance(2, 3) {
+			try("params:evm", func() error {
+				p := k.GetParams(ctx)
+				switch r.Pick(3) {
+				case 0:
+					p.CreateFuntokenFee = sdkmath.ZeroInt()
+				case 1:
+					p.CreateFuntokenFee = sdkmath.NewInt(r.Range(1, 5))
+				}
+				if r.Chance(1, 2) {
+					p.EVMChannels = []string{"channel-7"}
+				} else if r.Chance(1, 2) {
+					p.EVMChannels = []string{}
+				}
+				return k.SetParams(ctx, p)
+			})
+			try("params:devgas", func() error {
+				p, err := a1.DevGasKeeper.ModuleParams.Get(ctx)
+				if err != nil {
+					return err
+				}
+				switch r.Pick(3) {
+				case 0:
+					p.DeveloperShares = sdkmath.LegacyZeroDec()
+				case 1:
+					p.DeveloperShares = sdkmath.LegacyOneDec()
+				}
+				p.EnableFeeShare = r.Chance(1, 2)
+				if r.Chance(1, 2) {
+					p.AllowedDenoms = []string{"unibi"}
+				}
+				if err := p.Validate(); err != nil { // only what UpdateParams would accept
+					return err
+				}
+				a1.DevGasKeeper.ModuleParams.Set(ctx, p)
+				return nil
+			})
+			try("params:tf", func() error {
+				p := tftypes.ModuleParams{DenomCreationGasConsume: uint64(r.Pick(3))}
+				if err := p.Validate(); err != nil { // zero is refused by UpdateModuleParams as well
+					return err
+				}
+				a1.TokenFactoryKeeper.Store.ModuleParams.Set(ctx, p)
+				return nil
+			})
+		}
 		// ---- inflation
 		if r.Chance(2, 3) {
 			try("infl:state", func() error {
